@@ -564,3 +564,7 @@ mod tests {
         assert!(values.is_null(2));
     }
 }
+
+#[cfg(kani)]
+#[path = "/verif/kani/arrow-arith/arity.rs"]
+mod verif_kani;
